@@ -195,7 +195,12 @@ def run(ctx):
         ctx.dist("opts:" + ",".join(sorted(k for k, v in info["kwargs"]["optimization_options"].items() if v)) or "default")
         ctx.count("E2_minimum", "cases")
         rep["oracle_min"] = kmin; rep["oracle_witness"] = str(wit); rep["lowerbound_k"] = lb
+        def rebuild(extra):
+            kw2 = dict(info["kwargs"]); kw2["solver_options"] = dict(kw2.get("solver_options") or {}, **extra)
+            m2 = fp.MinFlowDecomp(info["G"], **kw2); m2.solve(); return m2
         if not ok or not m.is_solved():
+            if common.solver_artifact(ctx, rebuild, lambda m2: m2.is_solved()):
+                continue
             ctx.report("MinFlowDecomp.solve() did not succeed on a positive conserving flow", rep); continue
         sol = m.get_solution()
         rep["solution"] = {"paths": sol["paths"], "weights": sol["weights"]}
@@ -218,6 +223,8 @@ def run(ctx):
             pass
         if kmin is None:
             ctx.count("E2_minimum", "oracle_out_of_domain"); continue
+        if len(sol["paths"]) > kmin and common.solver_artifact(ctx, rebuild, lambda m2: m2.is_solved() and len(m2.get_solution()["paths"]) == kmin):
+            continue
         if len(sol["paths"]) != kmin:
             ctx.report(f"MinFlowDecomp returned {len(sol['paths'])} paths, the minimum is {kmin}", rep); continue
         if lb > kmin:
